@@ -356,8 +356,7 @@ pub fn oracle(text: &str, origin: &str, out: &mut Out) {
     for ((n, a), (_, b)) in f1.iter().zip(f2.iter()) {
         out.oracle_checks += 1;
         if a != b && carried(n, &m1) {
-            let cls = if *n == "beatmap_id" || *n == "beatmap_set_id" { "D16" } else { "" };
-            out.fail(cls, &desc, &format!("field {} is {} after decoding, {} after decode->encode->decode", n, a, b));
+            out.fail("", &desc, &format!("field {} is {} after decoding, {} after decode->encode->decode", n, a, b));
         }
     }
     // timing points
